@@ -70,8 +70,8 @@ Shapes ==
   \cup UNION {{Sh("hkdf_expand", v, a, 0, 0, 0) : a \in {0, 1, 255 * OutLen(v) - 1, 255 * OutLen(v), 255 * OutLen(v) + 1, 256 * OutLen(v) - 1, 256 * OutLen(v), 256 * OutLen(v) + 1}} :
                 v \in {"sha1", "sha256", "sha512"}}
   \cup {Sh("pbkdf2", "sha256", a, 0, 0, 0) : a \in {0, 1, 2}}
-  \cup {Sh("scrypt_params", "scrypt", a, b, c, 0) : a \in {0, 1, 15, 16, 17, 31, 32, 47, 48, 56, 57, 58, 63, 64}, b \in {0, 1, 2, 3, 4, 8, Pow2(30) - 1, Pow2(30)},
-                                                    c \in {0, 1, 2, Pow2(29), Pow2(30) - 1, Pow2(30)}}
+  \cup {Sh("scrypt_params", "scrypt", a, b, c, 0) : a \in {0, 1, 15, 16, 17, 31, 32, 47, 48, 56, 57, 58, 63, 64}, b \in {0, 1, 2, 3, 4, 8, 65535, 65536, 65537, Pow2(30) - 1, Pow2(30)},
+                                                    c \in {0, 1, 2, 65535, 65536, 65537, 1431655766, Pow2(29), Pow2(30) - 1, Pow2(30)}}
   \cup {Sh("scrypt_out", "scrypt", a, 0, 0, 0) : a \in {0, 1}}
   \cup {Sh("argon2_params", "argon2", a, b, c, 0) : a \in {0, 1, Pow2(24) - 1, Pow2(24)}, b \in {0, 1}, c \in {0, 16, 17, 19, 20}}
   \cup {Sh("ct_slice", v, a, b, 0, 0) : v \in {"u8", "u64"}, a \in {0, 1, 16}, b \in {0, 1, 2, 16, 17}}
